@@ -303,6 +303,9 @@ impl S {
                     held.insert(c.denom.clone(), (denom_id(&c.denom), c.amount.u128()));
                 }
                 for (d, n) in &funds_ids {
+                    if sender == w.splits {
+                        break; // a transfer to oneself adds nothing
+                    }
                     let e = held.entry(denom(*d as u64)).or_insert((*d as u64, 0));
                     e.1 += *n;
                 }
@@ -401,7 +404,8 @@ impl Sut for S {
         let me = t.splits_id;
         let sender = kv_u64(&t.line, "sender").unwrap();
         let funds = kv_pairs(&t.line, "funds").unwrap();
-        let fund_of = |d: u64| -> u128 { funds.iter().filter(|f| f.0 as u64 == d).map(|f| f.1).sum() };
+        // coins attached by the contract to a call to itself would not add anything (never generated; a contract cannot do it)
+        let fund_of = |d: u64| -> u128 { if sender == me { 0 } else { funds.iter().filter(|f| f.0 as u64 == d).map(|f| f.1).sum() } };
         let explicit: Option<Vec<u64>> = if kv(&t.line, "denoms").unwrap() == "none" { None } else { Some(kv_list(&t.line, "denoms").unwrap().iter().map(|x| *x as u64).collect()) };
         let total = t.pre.total as u128;
         let members = &t.pre.members;
@@ -673,8 +677,10 @@ impl<'a> G<'a> {
     fn pick_sender(&mut self, valid: bool) -> (u64, &'static str) {
         let cur = self.sut.cur.clone();
         let members = &cur.members;
-        let pos: Vec<u64> = members.iter().filter(|m| m.1 > 0).map(|m| m.0).collect();
-        let zero: Vec<u64> = members.iter().filter(|m| m.1 == 0).map(|m| m.0).collect();
+        // the contract itself never signs transactions
+        let me = self.me();
+        let pos: Vec<u64> = members.iter().filter(|m| m.1 > 0 && m.0 != me).map(|m| m.0).collect();
+        let zero: Vec<u64> = members.iter().filter(|m| m.1 == 0 && m.0 != me).map(|m| m.0).collect();
         if valid {
             match cur.sadmin {
                 Some(adm) => (adm, "admin"),
@@ -763,6 +769,28 @@ impl<'a> G<'a> {
             weight_class(cur.weight(sender))
         ));
         self.ses.count(if ok { "distribute:ok" } else { "distribute:err" });
+        if !ok {
+            let entitled = match cur.sadmin {
+                Some(adm) => adm == sender,
+                None => cur.weight(sender).is_some(),
+            };
+            let why = if !entitled {
+                "not-entitled"
+            } else if t == 0 {
+                "no-weight"
+            } else if cur.members.is_empty() {
+                "no-members"
+            } else if cur.members.len() > PROP_MAX_MEMBERS {
+                "too-many"
+            } else if fclass == "funds-uncovered" {
+                "funds-uncovered"
+            } else if best < t {
+                "nothing"
+            } else {
+                "bank-or-other"
+            };
+            self.ses.count(&format!("refused:{why}"));
+        }
         ok
     }
 
@@ -895,8 +923,8 @@ fn main() {
         ses.finish(&mut sut);
     }
     let rng = ses.rng.fork();
-    let n_grid = ses.scale(1, 40);
-    let n_hist = ses.scale(160, 16_000);
+    let n_grid = ses.scale(2, 60);
+    let n_hist = ses.scale(1200, 45_000);
     let mut g = G { ses: &mut ses, sut: &mut sut, rng };
 
     // ---- 1. the size × mode × weight-profile grid: instantiate, deposit at a chosen relation to the total weight,
@@ -972,15 +1000,34 @@ fn main() {
         g.ses.end_case();
     }
 
+    // ---- 3b. … and is paid FIRST (inst mode: splits = contract0 < group = contract1, the group contract being the
+    //          other member): with a denom listed twice the self-payments are no-ops and the duplicate goes through
+    for i in 0..g.ses.scale(6, 300) {
+        let w_self = *g.rng.pick(&[9u64, 1, 1000]);
+        let w_other = g.rng.range(1, 3);
+        let members = vec![(1000u64, w_self), (1001u64, w_other)];
+        if g.start("self-member-first", "inst", Some(ADMIN), Some(GADMIN), &members) {
+            let me = g.me();
+            let t = (w_self + w_other) as u128;
+            let amt = t * g.rng.range(1, 20) as u128 + g.rng.below(t as u64) as u128;
+            g.step(format!("mint to={me} coins=0:{amt}"));
+            let dl = if i % 3 == 0 { "0" } else { "0,0" };
+            let out = g.step(format!("distribute sender={ADMIN} funds=- denoms={dl}"));
+            g.ses.mark(format!("self-member-first:{dl}:{}", out.starts_with("ok")));
+            g.distribute(true);
+        }
+        g.ses.end_case();
+    }
+
     // ---- 4. histories: deposits, weight changes, admin changes and distributions interleaved
     for _ in 0..n_hist {
-        let size = match g.rng.below(10) {
+        let size = match g.rng.below(20) {
             0 => 1,
             1 => 24,
-            2 => 25,
-            3 => 26,
-            4 => 30,
-            5 => 31,
+            2 | 3 => 25,
+            4 => 26,
+            5 => 30,
+            6 => 31,
             _ => g.rng.range(1, 12) as usize,
         };
         let profile = g.rng.below(7);
@@ -1007,7 +1054,13 @@ fn main() {
                     g.deposit(&ds);
                 }
                 6..=12 => {
-                    let valid = g.rng.chance(4, 5);
+                    if g.rng.chance(3, 5) {
+                        let mut ds: Vec<u64> = vec![0, 1, 2, 3];
+                        g.rng.shuffle(&mut ds);
+                        ds.truncate(g.rng.range(1, 2) as usize);
+                        g.deposit(&ds);
+                    }
+                    let valid = g.rng.chance(7, 8);
                     g.distribute(valid);
                 }
                 13..=16 => {
